@@ -19,17 +19,24 @@ PROPERTY = "C01"
 HET = (0, 1)
 
 
+def _chk(d):
+    """the solver's precondition (ColumnIterator throws otherwise): reads sorted by their first column"""
+    firsts = [r["cols"][0] for r in d["reads"]]
+    assert firsts == sorted(firsts), "harness shape with unsorted reads: %r" % (d["reads"],)
+    return d
+
+
 def single(ncols, reads, **kw):
     d = dict(individuals=[0], trios=[], ncols=ncols, reads=[dict(sample=0, cols=list(c)) for c in reads], genotypes=[[HET] * ncols])
     d.update(kw)
-    return d
+    return _chk(d)
 
 
 def trio(ncols, reads, genotypes, **kw):
     """reads: [(sample, cols)], individuals 0=father 1=mother 2=child"""
     d = dict(individuals=[0, 1, 2], trios=[(0, 1, 2)], ncols=ncols, reads=[dict(sample=s, cols=list(c)) for s, c in reads], genotypes=genotypes)
     d.update(kw)
-    return d
+    return _chk(d)
 
 
 def interval_shapes(ncols, nreads, maxcov, gaps=False):
